@@ -143,7 +143,12 @@ class Path(parent.Geometry):
         with self._cache:
             self.merge_vertices()
             self.remove_duplicate_entities()
+            # vertices were re-indexed so values cached before are stale
+            self._cache.clear()
             self.remove_unreferenced_vertices()
+        # leaving the lock marks the cache as current so
+        # discard what was computed for intermediate states
+        self._cache.clear()
         return self
 
     @property
